@@ -29,6 +29,7 @@ pub fn plan() -> Plan {
         directed: vec![],
         quick_histories: 300,
         thorough_histories: 40000,
+        s5: None,
     }
 }
 
